@@ -45,6 +45,10 @@ func (s *Squeeze) Apply(inputs []tensor.Tensor) ([]tensor.Tensor, error) {
 		if err != nil {
 			return nil, err
 		}
+
+		if !ops.AllInRange(dimsToSqueeze, 0, nDims-1) {
+			return nil, ops.ErrNotAllAxesInRange(nDims, nDims)
+		}
 	}
 
 	newShape := getNewShape(currentShape, dimsToSqueeze)
